@@ -392,9 +392,10 @@ def main_check(prop, tier, seed, jobs=None):
         "wall_s": round(time.time() - t0, 2), "violations": len(new),
     }
     evpath = os.path.join(VERIF, "evidence", f"{prop}.json")
-    with open(evpath, "w") as f:
-        json.dump(ev, f, indent=1, sort_keys=True)
-        f.write("\n")
+    if not os.environ.get("VERIF_NO_EVIDENCE"):  # mutant runs must not overwrite real evidence
+        with open(evpath, "w") as f:
+            json.dump(ev, f, indent=1, sort_keys=True)
+            f.write("\n")
 
     print(f"[{prop}] tier={tier} seed={seed} shards={len(specs)} evaluations={evaluations} "
           f"distinct_nontrivial={len(nontriv)} wall={ev['wall_s']}s")
